@@ -16,8 +16,30 @@ TRUSTED = [
 ]
 
 
+def gen_nested_fanin(g):
+    """two fan-in nodes whose predecessor sets are nested ({a, b, e} and {a, b}), the wider one listed first: each must
+    receive the concatenation of ITS OWN predecessors (a shared or reused concatenation node would be visible here)"""
+    dims = g.sample([1, 2, 3, 4], 3)
+    descs = []
+    for d in dims:
+        descs.append(flow.gen_node(g, "input", d))
+        descs[-1]["ext_dim"] = d
+    sub = sorted(g.sample([0, 1, 2], 2))
+    wide_first = g.chance(0.7)
+    sets = [[0, 1, 2], sub] if wide_first else [sub, [0, 1, 2]]
+    edges = []
+    for ps in sets:
+        kind = g.choice(["identity", "relu", "plainlinear", "reservoir"])
+        descs.append(flow.gen_node(g, kind, sum(dims[p] for p in ps)))
+        edges += [(p, len(descs) - 1) for p in ps]
+    if g.chance(0.4):       # something downstream of both
+        descs.append(flow.gen_node(g, "plainlinear", descs[3]["out_dim"] + descs[4]["out_dim"]))
+        edges += [(3, 5), (4, 5)]
+    return descs, edges
+
+
 def gen_case(g):
-    descs, edges = flow.gen_graph(g)
+    descs, edges = gen_nested_fanin(g) if g.chance(0.15) else flow.gen_graph(g)
     if g.chance(0.25):
         # a node linked to nothing: it is an entry AND an exit, evaluated at every step like the others
         dim = g.choice([1, 2, 3])
@@ -35,6 +57,9 @@ def gen_case(g):
             if op["container"] == "3d":
                 op["lens"] = [op["lens"][0]] * nseq
         op["seed"] = g.randint(0, 10 ** 9)
+        # the type of the input arrays (counts, quantised or single-precision data): what the nodes compute, and what
+        # the model returns, is about their values
+        op["xdtype"] = g.choice(["float64", "float64", "float64", "int64", "int8", "float32"])
         ops.append(op)
     return {"kind": "c02", "descs": descs, "edges": edges, "ops": ops,
             "via": g.choice(["ctor", "ctor", "ops", "iand"])}
@@ -53,12 +78,18 @@ def op_inputs(b, op):
     if op["op"] == "call":
         for e in entries:
             data[e] = [[g.dyvec(b.all_descs[e]["in_dim"], a=2, k=6)]]     # one sequence of one row
-        return data, [1]
+        return _as_dtype(op, data), [1]
     lens = op["lens"]
     shared = None
     for e in entries:
         data[e] = [flow.seq_rows(g, L, b.all_descs[e]["in_dim"]) for L in lens]
-    return data, lens
+    return _as_dtype(op, data), lens
+
+
+def _as_dtype(op, data):
+    if op.get("xdtype", "float64").startswith("int"):
+        return {e: [[[float(round(v)) for v in row] for row in sq] for sq in seqs] for e, seqs in data.items()}
+    return data
 
 
 def impl_args(b, op, data):
@@ -71,7 +102,7 @@ def impl_args(b, op, data):
         use_map = True
 
     def pack(seqs):
-        arrs = [np.array(s, dtype=float).reshape(len(s), -1) for s in seqs]
+        arrs = [np.array(s, dtype=float).reshape(len(s), -1).astype(np.dtype(op.get("xdtype", "float64"))) for s in seqs]
         if op["op"] == "call":
             return arrs[0]
         if op.get("container") == "2d":
@@ -198,6 +229,7 @@ def check_case(ctx, case):
     total_steps = 0
     for oi, (op, r, osteps, mres) in enumerate(zip(case["ops"], impl_obs, oracle_obs, mo[1])):
         ctx.stat(f"op={op['op']} mapping={op['mapping']} rs={op['rs']}")
+        ctx.stat(f"input dtype={op.get('xdtype', 'float64')}")
         if r[0] != "ok":
             ctx.violation(f"op {oi} ({op['op']}) raised {r[1]} on well-formed input", case, obligation=ob)
             return
